@@ -23,21 +23,24 @@ LEAN_TARGETS = ['DawgieVerif.Model.FsmIO']
 
 MANIFEST = dict(
     text='Lean theorems over an executable model of the life-cycle FSM whose transition table is regenerated '
-         'from pl/state.dot on every run: moves_along_edges and rejected_no_effect (from every state, every '
-         'trigger/event), returns_to_rest with the explicit measure complete_decreases, active_only_at_rest, '
-         'no_half_transition (for every history of call-site-guarded triggers and completions in every order, '
-         'by induction over the event list with a state invariant; the per-step facts are closed by kernel '
-         'evaluation over all 672 cores of the finite control state), nesting_bound_unreached. The model is tied '
-         'to the real FSM + transitions.Machine by a correspondence run (histories from boot, every trigger and '
+         'from pl/state.dot on every run. For ALL histories and states: table_is_documented (the generated table is exactly the documented machine of the property text), moves_along_edges, rejected_no_effect, '
+         'rejected_event_no_effect, active_only_at_rest, nesting_bound_unreached. For histories in which '
+         'Process.step_3 fires only in gitting (Guarded): returns_to_rest_partial with the explicit measure '
+         'complete_decreases_partial, no_half_transition_partial, archive_returns_partial; the negations of the '
+         'three full statements are proved with concrete witnesses (returns_to_rest_fails, no_half_transition_fails, '
+         'archive_returns_fails) that replay on the real FSM. Histories are unbounded (induction over the event list '
+         'with a state invariant); per-step facts are closed by kernel evaluation over all 672 control states. '
+         'Tied to the real FSM + transitions.Machine by a correspondence run (histories from boot, every trigger and '
          'every completion from every forced control state) and an independent monitor on the real object.',
     note='Trusted: Lean kernel; propext/Classical.choice/Quot.sound only; tools/gen_c10.py (pydot reading of '
-         'state.dot, FSM.states, call sites); harness fakes (deferToThread recorder, db/farm/scan stubs). '
-         'Assumed: the transitions dispatch rule (first matching edge; before, state change, after; exceptions '
-         'propagate; MachineError on an undeclared trigger); background steps complete without raising; '
-         'Process.step_3 runs once per accepted step_1 (the legacy /app/submit chain calls step_3 twice on '
-         'success - outside the event alphabet, reported). Not exhibited: _archive_done running on a pool '
-         'thread while the reactor fires triggers (one model step). Callback bodies are hand-modelled '
-         '(fingerprinted), not translated.',
+         'state.dot, FSM.states, call sites); harness fakes (deferToThread recorder, db/farm/scan stubs, '
+         'reactor.callLater/spawnProcess recorder). Assumed: the transitions dispatch rule (first matching edge; '
+         'before, state change, after; exceptions propagate; MachineError on an undeclared trigger); background '
+         'steps complete without raising. Partial: returns-to-rest, no-half-transition and archive-and-back hold '
+         'only when one submission Process is in flight at a time and step_3 runs once per Process - the code breaks '
+         'both (known findings C10:legacy-double-step3, C10:submit-overlap, reproduced through the real deferred '
+         'chains). Not exhibited: _archive_done running on a pool thread while the reactor fires triggers (one model '
+         'step). Callback bodies are hand-modelled (fingerprinted), not translated.',
     technique='Lean 4 proof (invariant by induction over histories + exhaustive kernel-checked case analysis '
               'of the finite control state against the generated table) + differential correspondence',
     design='7/C10',
@@ -48,8 +51,9 @@ TRUSTED = [
     'exceptions propagate; MachineError on an undeclared trigger) - assumed by Model/Fsm.exec, sampled by the correspondence',
     'background steps (_pipeline, _reload, _archive, _navel_gaze bodies) complete without raising; their DB / scan / git '
     'work is stubbed at dawgie.db.*, farm.plow/notify_all/clear, pl.resources, RollbackImporter',
-    'Process.step_3 runs at most once per Process that passed step_1 (event alphabet); the legacy fe/submit.py chain '
-    'calls it twice on success (chain + VerifyHandler.processEnded) - observed and reported, not part of the alphabet',
+    'generated histories keep one submission Process in flight at a time and step_3 once per Process (hypothesis '
+    '`Guarded` of the _partial theorems); the two scenarios that break it are run first, through the real deferred '
+    'chains, and must produce exactly the known findings C10:legacy-double-step3 / C10:submit-overlap',
     '_archive_done is executed within the completion event of the archive step (shelve backend calls done() synchronously '
     'on the pool thread); pool-thread/reactor races inside that step are not exhibited',
 ]
@@ -318,7 +322,7 @@ def run(ctx, res):
             if c.get('kind') == 'hist':
                 obs = run_history(w, c['archive0'], c['events'], res, None)
                 record(res, lines, pending, c['archive0'], c['events'], obs, 'corpus')
-    for _ in range(4000 if thorough else 700):
+    for _ in range(10000 if thorough else 700):
         archive0, events = gen_random(r)
         obs = run_history(w, archive0, events, res, r)
         record(res, lines, pending, archive0, events, obs, 'random')
@@ -351,6 +355,16 @@ def run(ctx, res):
 
 
 def replay(rep, res):
+    """re-run the recorded input; report it again only if the recorded failure (same signature) is still there"""
+    tmp = common.Result()
+    _replay(rep, tmp)
+    want = rep.get('sig')
+    for h in tmp.hits:
+        if want is None or h['sig'] == want:
+            res.hit(h['sig'], h['what'], h['replay'])
+
+
+def _replay(rep, res):
     w = World()
     inp = rep['input']
     if inp['kind'] == 'hist':
